@@ -40,20 +40,41 @@ def popValid (nv : Nat) (P : PopIn) : Bool :=
       && mult.all (0 < ·)
   | none, none => decide (ValidU P.ploidy nv P.Z) && P.Z.length == P.nt
 
-/-- {"op":"c10.limits","nv","ntrait","U","beta","pop":{..}} -/
+def decEdit (j : Json) : J.R (Edit Rat) := do
+  let op ← J.field j "op" J.str
+  match op with
+  | "scale_col" => pure (.scaleCol (← J.field j "t" J.nat) (← J.field j "c" J.rat))
+  | "set" => pure (.setCell (← J.field j "j" J.nat) (← J.field j "t" J.nat) (← J.field j "v" J.rat))
+  | "add" => pure (.addAll (← J.field j "v" J.rat))
+  | _ => J.fail s!"unknown edit {op}"
+
+/-- {"op":"c10.limits","nv","ntrait","U","beta","pop":{..}} — or, for a model object with a history,
+    "U0","beta0","edits_u","edits_b" (the arrays at construction and the in-place edits) and optionally "u_misc" -/
 def opLimits : J.Op := fun j => do
   let nv ← J.field j "nv" J.nat
   let ntr ← J.field j "ntrait" J.nat
-  let U ← J.field j "U" (J.mat J.rat)
-  let beta ← J.field j "beta" (J.mat J.rat)
+  let uMisc ← J.fieldD j "u_misc" (J.mat J.rat) []
+  let M : ModelObj Rat ← (do
+    match ← J.fieldOpt j "U0" (J.mat J.rat) with
+    | some U0 =>
+      let beta0 ← J.field j "beta0" (J.mat J.rat)
+      let eu ← J.fieldD j "edits_u" (J.list decEdit) []
+      let eb ← J.fieldD j "edits_b" (J.list decEdit) []
+      pure ((ModelObj.mk beta0 uMisc U0).edit eu eb).copy
+    | none =>
+      pure (ModelObj.mk (← J.field j "beta" (J.mat J.rat)) uMisc (← J.field j "U" (J.mat J.rat))))
+  let U := M.uA          -- `self.u_a`; `u_misc` is read by nothing here
+  let beta := M.beta
   let P ← J.field j "pop" (decPop nv)
-  let p := popFreq nv P
+  let p := match ← J.fieldOpt j "ploidy_bits" J.nat with
+    | some bits => afreqNpPloidy (α := Rat) bits P.ploidy nv P.Z      -- `ploidy` handed over as a numpy intN scalar (D62)
+    | none => popFreq nv P
   let o := modelObs nv ntr U beta P.ploidy P.Z p
   let valid : Bool := popValid nv P
   pure <| J.obj [("afreq", J.ofList J.ofRat p), ("usl", J.ofList J.ofRat o.usl), ("lsl", J.ofList J.ofRat o.lsl),
     ("usl_un", J.ofList J.ofRat o.uslUn), ("lsl_un", J.ofList J.ofRat o.lslUn),
     ("gebv_raw", J.ofMat J.ofRat o.gebvRaw), ("gebv_un", J.ofMat J.ofRat o.gebvUn),
-    ("valid", J.ofBool valid)]
+    ("valid", J.ofBool valid), ("U_eff", J.ofMat J.ofRat U), ("beta_eff", J.ofMat J.ofRat beta)]
 
 def decProtocol (s : String) : J.R Protocol :=
   match s with
